@@ -242,6 +242,21 @@ Section Sound.
     destruct (login_after_history t0 b0 h l p) as (u' & c' & Ho' & _). eauto.
   Qed.
 
+
+  (* when the back-end is asked its present answer is returned; when it is not, the answer is flagged as cached *)
+  Theorem called_fresh : forall t0 b0 h l p,
+    let s := fst (runF (init t0 b0) h) in
+    let r := login_body Vfix cfg (backend (s_bk s)) (s_now s) (s_cache s) l p in
+    (r_called r = true -> exists cached, r_out r = ORet (backend (s_bk s) (map_login cfg l) p) cached)
+    /\ (r_called r = false -> exists u, r_out r = ORet u true).
+  Proof.
+    intros t0 b0 h l p s r.
+    destruct (login_after_history t0 b0 h l p) as (u & c & Ho & _ & _ & Hc & Hn). fold s in Ho, Hc, Hn. fold r in Ho, Hc, Hn.
+    split.
+    - intros E. exists c. rewrite Ho, (Hc E). reflexivity.
+    - intros E. exists u. rewrite Ho, (Hn E). reflexivity.
+  Qed.
+
   (* no attempt anywhere in any history raises *)
   Definition is_ret (o : outcome) : bool := match o with ORet _ _ => true | ORaise _ => false end.
 
